@@ -520,3 +520,118 @@ Lemma dr_example :
 Proof.
   split; [exact dr_room|]. split; [vm_compute; repeat constructor|]. split; vm_compute; reflexivity.
 Qed.
+
+(* ---------- no panic: QUICRandomFlightFrames and planInitialFlight ---------- *)
+Lemma ranges_loop_spec rs : forall p n bs acc,
+  rf_wf p -> 0 <= n < 2 ^ 62 -> pads_ok acc ->
+  match ranges_loop rs p n bs acc with
+  | Ok (fl, _) => pads_ok fl
+  | Err _ => True
+  | Panic => False
+  end.
+Proof.
+  induction rs as [|[off len] rs IH]; intros p n bs acc Hwf Hn Hacc; cbn [ranges_loop]; [assumption|].
+  pose proof (resolve_total off len n ltac:(lia)) as Hres.
+  destruct (resolve off len n) as [[s e]|c|]; cbn [bind]; [|exact I|contradiction].
+  destruct Hres as (Hs & He & _).
+  destruct (Z.leb_spec e s); [apply IH; assumption|].
+  destruct Hwf as (H1 & H2 & H3 & H4 & H5 & H6 & H7).
+  pose proof (split_range_partition s e (Z.max (minCrypto p) 1) (Z.max (maxCrypto p) 1) bs ltac:(lia) ltac:(lia) ltac:(lia) ltac:(lia)) as Hsp.
+  destruct (split_range s e (Z.max (minCrypto p) 1) (Z.max (maxCrypto p) 1) bs) as [[pieces bs']|c|]; cbn [bind]; [|exact I|contradiction].
+  destruct Hsp as (Hch & _). apply IH; [repeat split; assumption|assumption|].
+  unfold pads_ok in *. apply Forall_app. split; [assumption|]. eapply pchain_pads_ok; eassumption.
+Qed.
+
+Lemma pads_ok_pings k : pads_ok (repeat FPing k).
+Proof. unfold pads_ok. apply Forall_forall. intros x Hx. apply repeat_spec in Hx. subst. exact I. Qed.
+
+Lemma only_pads_pads_ok pads : only_pads pads -> pads_ok pads.
+Proof. unfold only_pads, pads_ok. intros H. eapply Forall_impl; [|exact H]. intros [| |]; simpl; tauto. Qed.
+
+Lemma rfd_build_nopanic d full bs us :
+  rf_wf (snd d) -> zlen full < 2 ^ 62 -> rfd_build d full bs us <> Panic.
+Proof.
+  destruct d as [rs p]. cbn [snd]. intros Hwf Hn. unfold rfd_build.
+  destruct (rfd_check rs p) as [[]|c|] eqn:Ec; cbn [bind]; [|discriminate|].
+  2: { unfold rfd_check in Ec. destruct rs; [discriminate|]. repeat (destruct (_ : bool) in Ec; try discriminate). }
+  pose proof (ranges_loop_spec rs p (zlen full) bs [] Hwf ltac:(pose proof (zlen_nonneg full); lia) ltac:(constructor)) as Hrl.
+  destruct (ranges_loop rs p (zlen full) bs []) as [[fl0 bs1]|c|]; cbn [bind]; [|discriminate|contradiction].
+  destruct fl0 as [|f0 fl0]; [discriminate|].
+  destruct Hwf as (H1 & H2 & H3 & H4 & H5 & H6 & H7).
+  pose proof (safe_rand_spec (minPing p) (maxPing p) bs1 H1 ltac:(lia)) as Hr.
+  destruct (safe_rand (minPing p) (maxPing p) bs1) as [[np bs2]|c|]; cbn [bind]; [|discriminate|contradiction].
+  set (fl := (f0 :: fl0) ++ repeat FPing (Z.to_nat np)).
+  assert (Hfl : pads_ok fl) by (unfold fl, pads_ok; apply Forall_app; split; [exact Hrl|apply pads_ok_pings]).
+  pose proof (build_abs_nopanic full fl Hfl) as Hdry.
+  destruct (build_abs full fl) as [dry|c|]; cbn [bind]; [|discriminate|congruence].
+  pose proof (padding_spec p (rfLen p - zlen (encode dry)) bs2 fl H5 H6 ltac:(pose proof (zlen_nonneg (encode dry)); lia)) as Hp.
+  destruct (padding p (rfLen p - zlen (encode dry)) bs2 fl) as [[fl2 bs3]|c|]; cbn [bind]; [|discriminate|contradiction].
+  destruct Hp as (pads & -> & Hpads).
+  pose proof (shuffle_outcome (fl ++ pads) us) as Hs.
+  destruct (shuffle (fl ++ pads) us) as [[fl3 us']|c|]; cbn [bind]; [|discriminate|contradiction].
+  assert (Hfl3 : pads_ok fl3).
+  { unfold pads_ok. eapply Permutation_Forall; [apply Permutation_sym; exact Hs|].
+    apply Forall_app. split; [exact Hfl|apply only_pads_pads_ok; assumption]. }
+  pose proof (build_abs_nopanic full fl3 Hfl3) as Hb.
+  destruct (build_abs full fl3) as [ws|c|]; cbn [bind]; [discriminate|discriminate|congruence].
+Qed.
+
+Lemma rff_loop_nopanic dgs : forall full bs us,
+  Forall (fun d => rf_wf (snd d)) dgs -> zlen full < 2 ^ 62 -> rff_loop dgs full bs us <> Panic.
+Proof.
+  induction dgs as [|d r IH]; intros full bs us Hwf Hn; cbn [rff_loop]; [discriminate|].
+  inversion Hwf as [|? ? Hd Hr]; subst.
+  pose proof (rfd_build_nopanic d full bs us Hd Hn) as H1.
+  destruct (rfd_build d full bs us) as [[[w bs1] us1]|c|]; cbn [bind]; [|discriminate|congruence].
+  pose proof (IH full bs1 us1 Hr Hn) as H2.
+  destruct (rff_loop r full bs1 us1) as [[[ws bs2] us2]|c|]; cbn [bind]; [discriminate|discriminate|congruence].
+Qed.
+
+(* the plan's parameters are in range *)
+Definition fb_ok (fb : fbuilder) : Prop :=
+  match fb with
+  | FBFrames dgs => Forall pads_ok dgs
+  | FBRandom dgs => Forall (fun d => rf_wf (snd d)) dgs
+  end.
+
+Lemma build_flight_nopanic fb hello bs us : fb_ok fb -> zlen hello < 2 ^ 62 -> build_flight fb hello bs us <> Panic.
+Proof.
+  intros Hok Hn. destruct fb as [dgs|dgs]; cbn [build_flight fb_ok] in *.
+  - pose proof (flight_frames_nopanic dgs false hello Hok) as H.
+    destruct (flight_frames dgs false hello); cbn [bind]; [discriminate|discriminate|congruence].
+  - unfold rff_build. destruct dgs as [|d0 r]; [discriminate|]. apply rff_loop_nopanic; assumption.
+Qed.
+
+(** planInitialFlight, for every in-range plan of either flight builder, every ClientHello, every
+    non-empty budget list and both oracles: it never panics; if it accepts, the planned datagrams
+    consist of frames inside the ClientHello with its bytes at absolute offsets and the union of
+    their CRYPTO ranges is exactly [0, |hello|). *)
+Lemma plan_flight_sound fb hello budgets bs us :
+  fb_ok fb -> zlen hello <= 2 ^ 48 -> budgets <> [] ->
+  match plan_flight fb hello budgets bs us with
+  | Ok (wss, _, _) =>
+    Forall (frame_in hello) wss /\
+    (forall j, (exists ws o d, In ws wss /\ In (o, d) (wcryptos ws) /\ o <= j < o + zlen d) <-> 0 <= j < zlen hello)
+  | Err _ => True
+  | Panic => False
+  end.
+Proof.
+  intros Hok H48 Hbud.
+  pose proof (plan_flight_complete fb hello budgets bs us H48) as Hc.
+  destruct (plan_flight fb hello budgets bs us) as [[[wss b1] u1]|c|] eqn:Ep; [destruct Hc as (_ & H1 & H2); auto|exact I|].
+  unfold plan_flight in Ep. destruct (zlen hello =? 0); [discriminate|].
+  pose proof (build_flight_nopanic fb hello bs us Hok ltac:(lia)) as Hnp.
+  destruct (build_flight fb hello bs us) as [[[wss0 b0] u0]|c|] eqn:Eb; cbn [bind] in Ep; [|discriminate|congruence].
+  assert (Htrue : Forall (frame_in hello) wss0).
+  { unfold build_flight in Eb. destruct fb as [dgs|dgs].
+    - apply bind_ok in Eb as (w0 & Hf & Hr). inversion Hr; subst. eapply flight_frames_true; eassumption.
+    - eapply rff_build_true; eassumption. }
+  pose proof (validate_builder_nopanic wss0 hello budgets Hbud H48 Htrue) as Hv.
+  destruct (validate (map encode wss0) budgets (zlen hello) =? 0); [discriminate|].
+  destruct (Z.eqb_spec (validate (map encode wss0) budgets (zlen hello)) (-1)); [congruence|discriminate].
+Qed.
+
+Lemma fb_ok_example :
+  fb_ok (FBRandom [([(-3, 0); (0, 2)], mkRF 0 2 1 3 0 0 0); ([(2, -3)], mkRF 0 0 0 0 0 0 0)]) /\
+  fb_ok (FBFrames [[FCrypto (-3) 0; FPad 2]; [FCrypto 0 (-3); FPing]]).
+Proof. split; repeat constructor; cbn; lia. Qed.
